@@ -155,6 +155,20 @@ def evaluate(chk, jobs, res, prop):
             for sig, det in vs[:3]: chk.violation(sig, f"episode {e}: {det}", case)
             if m["check"] != 1 and not vs:
                 chk.violation("check_schedule-rejects", f"episode {e}: the extracted certified checker check_schedule rejects rex's Timings", case)
+        if prop == "C07" and m.get("nmono", 0) > 0:
+            # rex.utils.to_timings inside the model (ToTimings.v): the schedule the MODEL builds from the partitioner's monomorphism of this episode
+            # must be the Timings rex built; check_mono = the decidable contract of the third-party partitioner under which
+            # ToTimingsLaws.to_timings_valid proves check_schedule of the model's schedule
+            chk.feat("to_timings:model-schedule-equals-rex-Timings" if m.get("ttmatch") == 1 else "to_timings:model-schedule-differs")
+            chk.feat("to_timings:check_mono-accepts(to_timings_valid applies)" if m.get("checkmono") == 1 else "to_timings:check_mono-rejects")
+            if m.get("ttmatch") != 1:
+                chk.violation("to_timings-differs-from-model", f"episode {e}: the Timings rex built are not what to_timings (ToTimings.v) yields for the "
+                              f"partitioner's monomorphism of this episode ({m.get('nmono')} mapped vertices): some vertex is not scheduled in the slot / partition "
+                              f"it was mapped to, or with another vertex's seq / times / windows", case)
+            if m.get("checkmono") == 1 and m.get("ttcheck") != 1:
+                chk.broke("ToTimingsLaws.to_timings_valid", f"episode {e}: check_mono accepts but check_schedule rejects the model's schedule")
+            if m.get("checkmono") != 1 and m["check"] == 1 and not j.get("starting_step"):
+                chk.feat("to_timings:check_mono-rejects-but-check_schedule-accepts")
         if prop == "C08":
             # direct oracle on the implementation's rows: every window entry whose producer ran in this execution carries the
             # payload that producer emitted at that sequence number; negative entries carry the default output
